@@ -32,8 +32,12 @@
 (*   RefreshSync         the rest of Module.update()'s do(): the client     *)
 (*                       updater fetches the lists                          *)
 (*   Restart             a new Module on the same SQL database              *)
-(*   Advance, ToggleReg, ToggleGet, Refuse, Unrefuse, WalletAdd,            *)
-(*   WalletRemove, KillDID, RemoveSubject      the environment              *)
+(*   Advance, ToggleReg, ToggleGet, Refuse, WalletFlip, KillDID,            *)
+(*   RemoveSubject      the environment: the clock, the server's POST / GET *)
+(*                      endpoints, a server that refuses one DID, the       *)
+(*                      matching credential entering / leaving a wallet, a  *)
+(*                      DID being deactivated, a subject disappearing       *)
+(* GetServiceActivation is a pure function of rec, err and loc.            *)
 (*                                                                           *)
 (* Time is in SECONDS and computed exactly as the code does:                *)
 (*   next_refresh = now + trunc(0.45 * presentation_max_validity)           *)
@@ -44,9 +48,15 @@
 (*                                                                           *)
 (* Deviations of the code from the properties are boolean constants         *)
 (* (FALSE = as implemented, TRUE = the repaired design TLC proves correct): *)
-(*   RefreshRechecks, PartialIsFailure, DeactivateSyncsFirst.               *)
+(*   RefreshRechecks       the loop body works on the candidate as read at  *)
+(*                         the start of the round (stale after an API call) *)
+(*   PartialIsFailure      a failure of SOME DIDs is only logged and the    *)
+(*                         whole subject is rescheduled 0.45 x validity on  *)
+(*   DeactivateSyncsFirst  deactivate() trusts the local copy of the list   *)
 (* Design decisions the properties depend on are constants too (TRUE = as   *)
 (* implemented), so every invariant can be shown to be able to fail.        *)
+(* `out`, `res` and the variables after them are observation / history      *)
+(* variables: the properties talk about what a step SENT.                   *)
 (***************************************************************************)
 EXTENDS Integers, FiniteSets, Sequences, TLC
 
@@ -204,8 +214,8 @@ Activate(svc, s, p) ==
            success == o = "ok" \/ o = "partial"
        IN /\ Register(svc, s, p, o)
           /\ rec' = IF ~success THEN rec
-                    ELSE IF o = "partial" /\ PartialIsFailure
-                         THEN [rec EXCEPT ![c] = [on |-> TRUE, next |-> now, par |-> p]]
+                    ELSE IF o = "partial" /\ PartialIsFailure    \* due in the next slot at the latest; an earlier next_refresh stays
+                         THEN [rec EXCEPT ![c] = [on |-> TRUE, next |-> IF Due(rec[c]) THEN rec[c].next ELSE now, par |-> p]]
                          ELSE [rec EXCEPT ![c] = [on |-> TRUE, next |-> now + Refresh(svc), par |-> p]]
           /\ err' = IF ~success THEN err ELSE [err EXCEPT ![c] = (o = "partial" /\ PartialIsFailure)]
           /\ loc' = IF success THEN Sync(svc, loc) ELSE loc      \* clientUpdater.updateService, errors are logged only
@@ -413,6 +423,8 @@ NoLapse ==
         IN (rec[<<svc, Owner(d)>>].on /\ e.kind = "reg" /\ e.exp <= now) => fails[<<svc, d>>] >= Min(Slack(svc), Cap)
 
 \* a failed refresh is visible through GetServiceActivation and is retried by the next round
+\* (FailureRetried is NOT as implemented when an API activation raced with the round: the stale candidate then records an
+\* error for a subject that is not due any more, see RefreshRechecks)
 FailureVisible == \A c \in CS : (rec[c].on /\ lastRes[c] = "failed") => err[c]
 FailureRetried == \A c \in CS : (rec[c].on /\ lastRes[c] = "failed") => Due(rec[c])
 \* ... also when only some of the DIDs failed (NOT as implemented)
